@@ -11,5 +11,8 @@ def oracle(qualname):
 
 
 def alias(internal, entry_point):
-    """an internal function without an oracle of its own is searched through the entry point that runs it"""
-    ALIASES[internal] = entry_point
+    """an internal function without an oracle of its own is searched through the entry points that run it
+    (several may be registered; they are tried in order, the search budget is shared)"""
+    lst = ALIASES.setdefault(internal, [])
+    if entry_point not in lst:
+        lst.append(entry_point)
